@@ -465,7 +465,7 @@ package shmipc
 //@ func createFreeBufferList
 //@   requires len(mem) < 4294967296 && region(mem) > 0
 //@   requires offsetInMem + 36 + bufferNum * (capPerBuffer + 20) < 4294967296   // offsets do not wrap in uint32 (established by createBufferManager; see DESIGN finding F3)
-//@   ensures  r1 != nil ==> r0 == nil
+//@   ensures  r1 != nil ==> r0 == nil && (bufferNum == 0 || capPerBuffer == 0 || offsetInMem + 36 + bufferNum * (capPerBuffer + 20) > len(mem))   // fails only when it must
 //@   ensures  r1 == nil ==> r0 != nil && fresh(r0) && bufferNum >= 1 && capPerBuffer >= 1 && listGeom(r0, mem, offsetInMem, bufferNum, capPerBuffer)
 //@   ensures  r1 == nil ==> *r0.size == bufferNum && *r0.cap == bufferNum && *r0.head == 0 && *r0.tail == (bufferNum - 1) * (capPerBuffer + 20) && *r0.capPerBuffer == capPerBuffer
 //@   ensures[C01,C02]  r1 == nil ==> forall k in [0, bufferNum): using(mulMono(k, bufferNum, capPerBuffer + 20)) ==> slotInit(r0.bufferRegion, k, bufferNum, capPerBuffer)
@@ -539,12 +539,15 @@ package shmipc
 //@   requires len(mem) < 4294967296 && region(mem) > 0 && bufferRegionStartOffset + 8 <= len(mem)   // the mapping holds at least the 8-byte manager header
 //@   ghost var chainOK bool = true
 //@   ghost var nextOff int = bufferRegionStartOffset + 8
+//@   ghost var listFailed bool = false
+//@   at call mappingFreeBufferList#0 ghost listFailed := listFailed || r1 != nil
 //@   at call mappingFreeBufferList#0 ghost chainOK := chainOK && (r1 == nil ==> r0.offsetInShm == nextOff)
 //@   at call countBufferListMemSize#0 ghost nextOff := uint32(nextOff + r0)
 //@   ensures  r1 != nil ==> r0 == nil
 //@   ensures  r1 == nil ==> r0 != nil && fresh(r0) && r0.mem == mem && len(r0.lists) == mem16(mem, bufferRegionStartOffset) && len(r0.lists) >= 1
 //@   exit     r1 == nil ==> chainOK
-//@   loop 0 invariant 0 <= i && i <= listNum && listNum == mem16(mem, bufferRegionStartOffset) && listNum >= 1 && len(freeLists) == i && cap(freeLists) == listNum && chainOK && nextOff == uint32(bufferRegionStartOffset + hadUsedOffset)
+//@   exit     r1 != nil ==> len(mem) < 8 + mem32(mem, bufferRegionStartOffset + 4) || mem16(mem, bufferRegionStartOffset) == 0 || listFailed   // fails only when it must
+//@   loop 0 invariant 0 <= i && i <= listNum && listNum == mem16(mem, bufferRegionStartOffset) && listNum >= 1 && len(freeLists) == i && cap(freeLists) == listNum && chainOK && !listFailed && nextOff == uint32(bufferRegionStartOffset + hadUsedOffset)
 //@   loop 0 invariant region(freeLists) == entry(region(freeLists)) && off(freeLists) == entry(off(freeLists))
 //@   loop 0 invariant forall j in [0, i): freeLists[j] != nil
 //@   loop 0 modifies freeLists[0 : cap(freeLists)]
